@@ -36,7 +36,7 @@ def kernel(ctx, func, fibre, skipna):
     return ctx.scalar(getattr(np, func)(arr))
 
 
-def reduce_(ctx, shape, func, axis, skipna=False, dkind='f', nan='sym', q=None, lkinds=None):
+def reduce_(ctx, shape, func, axis, skipna=False, dkind='f', nan='sym', q=None, lkinds=None, warm=False):
     nd = len(shape)
     dims = DIMS[:nd]
     lkinds = lkinds or ['i', 'U', 'f', 'i'][:nd]
@@ -69,6 +69,10 @@ def reduce_(ctx, shape, func, axis, skipna=False, dkind='f', nan='sym', q=None, 
     kw = {'axis': axarg}
     if skipna:
         kw['skipna'] = True
+    if warm:
+        # the same reduction has been used before in this process, on data without NaN (results must not depend on that)
+        w = ctx.mk(dims, labels, [float(i + 1) for i in range(ncell)], lkinds=lkinds, register=False)
+        ctx.call(lambda: getattr(w, func)(**kw))
     if func == 'percentile':
         if isinstance(axis, list) or axis is None:
             raise ValueError("percentile: single axis only")
@@ -178,6 +182,9 @@ def templates():
                 add('%s-%s-3d-%s' % (func, skipna, nm), 'reduce_', 'quick' if (not skipna or func in ('sum', 'median')) else 'thorough', cost=0.5,
                     shape=[2, 3, 2], func=func, axis=axis, skipna=skipna, nan='none')
             add('%s-%s-3d-allnan' % (func, skipna), 'reduce_', cost=0.3, shape=[2, 1, 2], func=func, axis=2, skipna=skipna, nan='all')
+        for skipna in (False, True):
+            add('%s-%s-warm' % (func, skipna), 'reduce_', cost=0.5, shape=[2, 2], func=func, axis=0, skipna=skipna, warm=True)
+            add('%s-%s-warm-none' % (func, skipna), 'reduce_', cost=0.5, shape=[3], func=func, axis=None, skipna=skipna, warm=True)
         for dk in 'ib':
             if dk == 'b' and func in ('ptp',):
                 continue
